@@ -81,16 +81,17 @@ def count_statements(files):
     return n
 
 def check_property_file(pid):
-    """Recompile Properties/<pid>.v (and Properties/<pid>base.v, the earlier theorems of the property, when
-    present) alone - their dependencies are compiled by make -, collect the Print Assumptions output, compare
+    """Recompile Properties/<pid>.v (and Properties/<pid>base.v, the earlier theorems of the property, and
+    Properties/<pid>laws.v, laws of the reference semantics, when present) alone - their dependencies are compiled by make -, collect the Print Assumptions output, compare
     with the allow-list.  -> dict(ok, theorems, axioms, problems, lemmas)"""
     vf = os.path.join(COQ, "Properties", pid + ".v")
     res = dict(ok=False, theorems=[], axioms=[], problems=[], lemmas=0, file=vf, pins=[])
     if not os.path.exists(vf):
         res["problems"].append("missing " + vf); return res
     files = [vf]
-    bf = os.path.join(COQ, "Properties", pid + "base.v")
-    if os.path.exists(bf): files.insert(0, bf)
+    for suffix in ("laws.v", "base.v"):     # <pid>laws.v: laws of the reference semantics belonging to the property
+        bf = os.path.join(COQ, "Properties", pid + suffix)
+        if os.path.exists(bf): files.insert(0, bf)
     axioms = set()
     closure = set()
     for f in files:
